@@ -65,6 +65,30 @@ pub fn load_findings() -> Vec<Finding> {
     out
 }
 
+/// Golden failing-sets (DESIGN.md §3.6 "as built"): per configuration family the exact failing histories of
+/// the unchanged tree (64-bit failure ids), each with the finding it is attributed to.
+pub fn load_golden(prop: &str) -> std::collections::HashMap<String, std::collections::HashMap<u64, String>> {
+    let mut out: std::collections::HashMap<String, std::collections::HashMap<u64, String>> = Default::default();
+    let dir = verif_dir().join("golden");
+    let idx = match std::fs::read_to_string(dir.join(format!("{}.json", prop))) {
+        Ok(t) => t,
+        Err(_) => return out,
+    };
+    let idx: Value = serde_json::from_str(&idx).expect("golden index is not valid JSON");
+    let bin = std::fs::read(dir.join(format!("{}.bin", prop))).expect("golden .bin missing");
+    for set in idx["sets"].as_array().cloned().unwrap_or_default() {
+        let fam = set["family"].as_str().unwrap().to_string();
+        let finding = set["finding"].as_str().unwrap().to_string();
+        let (off, n) = (set["offset"].as_u64().unwrap() as usize, set["count"].as_u64().unwrap() as usize);
+        let m = out.entry(fam).or_default();
+        for i in 0..n {
+            let b = &bin[(off + i) * 8..(off + i + 1) * 8];
+            m.insert(u64::from_le_bytes(b.try_into().unwrap()), finding.clone());
+        }
+    }
+    out
+}
+
 pub fn abs_to_json(abs: &[Abs]) -> Value {
     Value::Array(abs.iter().map(|a| json!({"author": a.author, "k": a.cmd.k, "x": a.cmd.x, "y": a.cmd.y, "vis": a.vis, "variant": a.variant})).collect())
 }
@@ -134,6 +158,11 @@ pub fn finish(prop: &str, tier: &str, seed: i64, jobs: &[Box<dyn JobT>], outcome
             eprintln!("MACHINERY: state guard (64 states per knowledge set) hit in {} — exhaustiveness lost", o.label);
             machinery_error = true;
         }
+        for (fid, n) in o.golden_hits.iter() {
+            let what = findings.iter().find(|f| f.id == *fid).map(|f| f.what_fails.clone()).unwrap_or_default();
+            let e = known.entry(fid.clone()).or_insert((0, 0, what));
+            e.1 += n;
+        }
         for c in o.cores.iter() {
             if c.kind == "explorer-self-check" {
                 eprintln!("MACHINERY: explorer self-check failed in {}: {} ({})", o.label, c.example.detail, c.example_text);
@@ -144,7 +173,10 @@ pub fn finish(prop: &str, tier: &str, seed: i64, jobs: &[Box<dyn JobT>], outcome
             let (sig_key, sig) = if c.core_key == "*" { (String::new(), String::new()) } else { jobs[ji].signature(&c.core) };
             let mut sig_changed = false;
             for f in findings.iter().filter(|f| f.property == prop) {
-                for m in f.matchers.iter().filter(|m| m.system == o.system && m.kind == c.kind && (m.core == "*" || m.core == c.core_key)) {
+                // with a golden failing-set only site predicates may still absorb a failure: every listed
+                // failing history was already recognised by its id, so this one is new
+                let learn = std::env::var("VERIF_LEARN").is_ok(); // learn runs: only site predicates absorb, every core is dumped
+                for m in f.matchers.iter().filter(|m| m.system == o.system && m.kind == c.kind && (m.core == "*" || (m.core == c.core_key && !o.golden_used && !learn))) {
                     // a listed core must also still behave as recorded (same number of distinct states and reads
                     // per knowledge set, same failures): otherwise it fails *differently* and is reported
                     if m.core == "*" || m.sigs.is_empty() || m.sigs.get(&sig_key) == Some(&sig) {
@@ -203,6 +235,13 @@ pub fn finish(prop: &str, tier: &str, seed: i64, jobs: &[Box<dyn JobT>], outcome
             }
         }
     }
+    if std::env::var("VERIF_LEARN").is_ok() {
+        let dump: Vec<Value> = outcomes
+            .iter()
+            .map(|o| json!({"family": o.sig_key, "system": o.system, "entries": o.learned.iter().map(|(f, k, c)| json!([format!("{:016x}", f), k, c])).collect::<Vec<_>>()}))
+            .collect();
+        let _ = std::fs::write(replay_dir.join(format!("failing-{}.json", tier)), serde_json::to_string(&dump).unwrap());
+    }
     if !unmatched.is_empty() {
         let _ = std::fs::write(replay_dir.join(format!("unmatched-{}.json", tier)), serde_json::to_string_pretty(&unmatched).unwrap());
     }
@@ -256,7 +295,8 @@ pub fn finish(prop: &str, tier: &str, seed: i64, jobs: &[Box<dyn JobT>], outcome
             "explanation": "explicit-state exploration of the real crate: every transition (apply / merge / duplicate / stale merge / restore / reset_remove) is a call into the implementation, so every explored trace is an implementation trace; states are deduplicated per knowledge set with the crate's own ==; all configurations below ran to completion (no iteration, branch or time cap)",
             "configurations": jobs_json,
             "engine_detail": extra.as_ref().map(|x| x.detail.clone()).unwrap_or(Value::Null),
-            "known_findings_matched": known.iter().map(|(id, (c, h, _))| json!({"finding": id, "cores": c, "failing_histories": h})).collect::<Vec<_>>(),
+            "known_findings_matched": known.iter().map(|(id, (c, h, _))| json!({"finding": id, "cores_or_site_predicates": c, "failing_histories": h})).collect::<Vec<_>>(),
+            "golden_failing_set_used": outcomes.iter().any(|o| o.golden_used),
         },
         "assumptions": [level_note, "bounded scope: only histories within the listed bounds are covered", "states are identified by the crate's own PartialEq during deduplication; reads are compared independently"],
         "wall_s": wall_s,
